@@ -8,6 +8,7 @@ PATH).  The decision whether an observed event sequence is acceptable is made by
 """
 from __future__ import print_function
 
+import collections
 import copy
 import json
 import os
@@ -228,6 +229,17 @@ def _G():
     return lena.structures.graph([[0, 1], [2, 3]])
 
 
+_NTPair = collections.namedtuple("_NTPair", "data context")
+
+
+class _WriteAttr(object):
+    """has an attribute `write` that is not callable (not selected by Write)."""
+    write = 5
+
+    def __repr__(self):
+        return "_WriteAttr()"
+
+
 # unselected values every element must pass: bare numbers, strings, tuples, pairs with unrelated context, foreign objects
 COMMON_B = [
     ("int", lambda d: 3),
@@ -241,6 +253,9 @@ COMMON_B = [
     ("list", lambda d: [1, 2]),
     ("dict", lambda d: {"a": 1}),
     ("pair_foreign", lambda d: (Foreign("g"), {"data": {"name": "d"}})),
+    ("namedtuple_pair", lambda d: _NTPair(2.5, {"x": 1})),                   # a tuple subclass that is a (data, context) pair
+    ("pair_ordereddict", lambda d: (2.5, collections.OrderedDict(a=1))),     # context of a dict subclass
+    ("bytes", lambda d: b"raw bytes"),
 ]
 STR_B = [
     ("str", lambda d: "text"),
@@ -336,7 +351,13 @@ def element_specs():
            ("graph_rows", lambda d: (_G(), {"b": 2})), ("hist1d_bare", lambda d: _H1())],
         B=COMMON_B + STR_B + [("hist_to_csv_false", lambda d: (_H1(), {"output": {"to_csv": False}})),
                               ("hist3d", lambda d: _H3()), ("hist3d_pair", lambda d: (_H3(), {"c": 3})),
-                              ("graph_to_csv_false", lambda d: (_G(), {"output": {"to_csv": False, "x": 1}}))],
+                              ("graph_to_csv_false", lambda d: (_G(), {"output": {"to_csv": False, "x": 1}})),
+                              # already converted: csv text with the context ToCSV itself would have produced
+                              ("csv_text", lambda d: ("0.0,3.0\n1.0,4.0", {"output": {"filetype": "csv", "dirname": "new/csv",
+                                                                                   "filename": "t"}})),
+                              ("csv_path", lambda d: (os.path.join(d, "out", "new", "t.csv"),
+                                                      {"output": {"filetype": "csv", "filepath": "out/new/t.csv"}})),
+                              ("hist_to_csv_zero", lambda d: (_H1(), {"output": {"to_csv": 0, "dirname": "new/h"}}))],
         doc="histograms (1-d, 2-d) and objects with rows() are converted; output.to_csv False, 3-d histograms and "
             "everything else pass"))
     out.append(ElementSpec(
@@ -347,8 +368,20 @@ def element_specs():
            ("bare_string", lambda d: "just a string")],
         B=COMMON_B + [("str_write_false", lambda d: ("text", {"output": {"write": False, "filename": "no"}})),
                       ("writable_write_false", lambda d: (Writable("x"), {"output": {"write": False}})),
-                      ("hist", lambda d: (_H1(), {"output": {"filename": "h"}}))],
-        doc="strings and objects with write() are written unless output.write is False"))
+                      ("hist", lambda d: (_H1(), {"output": {"filename": "h", "dirname": "new/hist"}})),
+                      # already written by another Write: data equals the path this Write builds from the context;
+                      # the directory of that path does not exist
+                      ("already_written", lambda d: (os.path.join(d, "out", "plots/2024", "f.txt"), {"output": {
+                          "filename": "f", "dirname": "plots/2024", "fileext": "txt", "changed": False,
+                          "filepath": os.path.join(d, "out", "plots/2024", "f.txt")}})),
+                      ("already_written_csv", lambda d: (os.path.join(d, "out", "other", "g.csv"), {"output": {
+                          "filename": "g", "dirname": "other", "filetype": "csv", "fileext": "csv", "changed": True,
+                          "filepath": os.path.join(d, "out", "other", "g.csv")}, "k": 1})),
+                      ("write_attr_not_callable", lambda d: (_WriteAttr(), {"output": {"filename": "wa", "dirname": "new/wa"}})),
+                      ("str_write_false_dirname", lambda d: ("text", {"output": {"write": False, "dirname": "new/nowrite",
+                                                                                "filename": "n"}}))],
+        doc="strings and objects with write() are written unless output.write is False or the string is the very "
+            "path this Write would write to (already written by another Write)"))
     out.append(ElementSpec(
         "RenderLaTeX", lambda d: lena.output.RenderLaTeX("t.tex", template_dir=os.path.join(d, "templates")),
         prepare=_prep_render,
@@ -356,7 +389,11 @@ def element_specs():
            ("csv_template", lambda d: ("f2.csv", {"output": {"filetype": "csv", "template": "t2.tex"}, "v": 2})),
            ("csv_hist", lambda d: (_H1(), {"output": {"filetype": "csv"}, "v": 3}))],
         B=COMMON_B + STR_B + [("tex_typed", lambda d: ("x.tex", {"output": {"filetype": "tex"}, "v": 1})),
-                              ("no_filetype", lambda d: ("f.csv", {"output": {"filename": "f"}, "v": 1}))],
+                              ("no_filetype", lambda d: ("f.csv", {"output": {"filename": "f"}, "v": 1})),
+                              ("already_rendered", lambda d: ("value=1 file=tex\n", {"output": {
+                                  "filetype": "tex", "fileext": "tex", "dirname": "new/tex", "filename": "r",
+                                  "template": "t.tex"}, "v": 1})),
+                              ("csv_uppercase", lambda d: ("f.csv", {"output": {"filetype": "CSV", "dirname": "new/x"}}))],
         doc="values with output.filetype == csv are rendered"))
     out.append(ElementSpec(
         "LaTeXToPDF", lambda d: lena.output.LaTeXToPDF(verbose=0, create_command=_stub_command),
@@ -366,7 +403,11 @@ def element_specs():
                                                  {"output": {"filetype": "tex", "changed": False}})),
            ("tex_no_changed", lambda d: (os.path.join(d, "tex", "a2.tex"), {"output": {"filetype": "tex"}, "k": 1}))],
         B=COMMON_B + STR_B + [("csv_typed", lambda d: ("a.csv", {"output": {"filetype": "csv"}})),
-                              ("pdf_typed", lambda d: (os.path.join(d, "tex", "a3.pdf"), {"output": {"filetype": "pdf"}}))],
+                              ("pdf_typed", lambda d: (os.path.join(d, "tex", "a3.pdf"), {"output": {"filetype": "pdf"}})),
+                              ("pdf_typed_new_dir", lambda d: (os.path.join(d, "tex", "new", "b.pdf"), {"output": {
+                                  "filetype": "pdf", "dirname": "new", "filename": "b", "changed": True}})),
+                              ("tex_path_without_type", lambda d: (os.path.join(d, "tex", "a1.tex"),
+                                                                   {"output": {"fileext": "tex", "changed": True}}))],
         doc="values with output.filetype == tex are converted by a process; results may come at any later position"))
     out.append(ElementSpec(
         "PDFToPNG", lambda d: lena.output.PDFToPNG(verbose=False),
@@ -376,14 +417,20 @@ def element_specs():
                                                  {"output": {"filetype": "pdf", "changed": False}})),
            ("pdf_changed", lambda d: (os.path.join(d, "pdf", "p2.pdf"), {"output": {"filetype": "pdf", "changed": True}}))],
         B=COMMON_B + STR_B + [("tex_typed", lambda d: (os.path.join(d, "pdf", "x.tex"), {"output": {"filetype": "tex"}})),
-                              ("png_typed", lambda d: (os.path.join(d, "pdf", "p3.png"), {"output": {"filetype": "png"}}))],
+                              ("png_typed", lambda d: (os.path.join(d, "pdf", "p3.png"), {"output": {"filetype": "png"}})),
+                              ("png_typed_new_dir", lambda d: (os.path.join(d, "pdf", "new", "q.png"), {"output": {
+                                  "filetype": "png", "dirname": "new", "filename": "q", "changed": True}})),
+                              ("pdf_path_without_type", lambda d: (os.path.join(d, "pdf", "p1.pdf"),
+                                                                   {"output": {"fileext": "pdf", "changed": True}}))],
         doc="values with output.filetype == pdf are converted with pdftoppm"))
     out.append(ElementSpec(
         "HistToGraph", lambda d: lena.structures.HistToGraph(),
         A=[("hist_pair", lambda d: (_H1(), {"a": 1})), ("hist_bare", lambda d: _H1()),
            ("hist_to_graph_true", lambda d: (_H1(), {"histogram": {"to_graph": True}}))],
         B=COMMON_B + STR_B + [("hist_to_graph_false", lambda d: (_H1(), {"histogram": {"to_graph": False}})),
-                              ("graph", lambda d: (_G(), {"g": 1}))],
+                              ("graph", lambda d: (_G(), {"g": 1})),
+                              ("hist_to_graph_zero", lambda d: (_H1(), {"histogram": {"to_graph": 0}})),
+                              ("Histogram_element", lambda d: lena.structures.Histogram([0, 1, 2]))],
         doc="histograms are transformed unless histogram.to_graph is False"))
     out.append(ElementSpec(
         "MapBins", lambda d: lena.structures.MapBins(lambda x: x + 1, select_bins=int),
